@@ -40,10 +40,10 @@ func jobsFor(prop, tier string) []Job {
 		}
 		if thorough {
 			js = append(js, mk("c01-n4-drain", params("N", 4, "KEYS", 2, "DRAIN", 1, "L0MAX", 2), false, 0),
-				mk("c01-n3-drain-ops2-k3", params("N", 3, "KEYS", 3, "DRAIN", 1, "OPS2", 1, "KINDS", 2, "IBMAX", 0, "BLKMAX", 0), false, 0),
+				mk("c01-n3-drain-ops2-k3-sets", params("N", 3, "KEYS", 3, "DRAIN", 1, "OPS2", 1, "KINDS", 1, "IBMAX", 0, "BLKMAX", 0), false, 0),
 				mk("c01-n4-lazy", params("N", 4, "KEYS", 2, "DRAIN", 0, "K0", 3, "IBMAX", 2), false, 0),
 				mk("c01-n4-eager", params("N", 4, "KEYS", 2, "DRAIN", 0, "K0", 0, "L0MAX", 2), true, 0),
-				mk("c01-n3-sched2", params("N", 3, "KEYS", 2, "DRAIN", 0), false, 2))
+				mk("c01-n2-sched1", params("N", 2, "KEYS", 2, "DRAIN", 0), false, 1))
 		}
 	case "C02":
 		mk := func(name string, p map[string]int, sameSecond bool) Job {
@@ -65,7 +65,7 @@ func jobsFor(prop, tier string) []Job {
 			}(),
 		}
 		if thorough {
-			js = append(js, mk("c02-n4-2cycles", params("N", 4, "CYCLES", 2, "KEYS", 2, "IBMAX", 2), true),
+			js = append(js, mk("c02-n3-2cycles-ib2", params("N", 3, "CYCLES", 2, "KEYS", 2, "IBMAX", 2), true),
 				mk("c02-n4-1cycle-drain", params("N", 4, "CYCLES", 1, "KEYS", 3, "DRAIN", 1, "L0MAX", 2), false),
 				mk("c02-n3-2cycles-ops2", params("N", 3, "CYCLES", 2, "KEYS", 2, "OPS2", 1, "K0", 2), false))
 		}
@@ -113,12 +113,12 @@ func jobsFor(prop, tier string) []Job {
 		if thorough {
 			js = append(js, mk("crash-w2", params("W", 2), 1, tears, false, 0),
 				mk("crash-w0-2crashes", params("W", 0), 2, false, false, 0),
-				mk("crash-w0-nodrain-eager", params("W", 0, "DRAIN", 0, "IB", 0), 1, tears, true, 0),
-				func() Job {
-					j := mk("crash-w4-sched1", params("W", 4, "DRAIN", 0, "ZONE", 2, "POSTN", 1), 1, tears, false, 1)
-					j.ZoneOnly = true // schedules explored in the workload phase, recovery under the default schedule
-					return j
-				}())
+				mk("crash-w0-nodrain-eager", params("W", 0, "DRAIN", 0, "IB", 0), 1, tears, true, 0))
+			if !tears { // (with every tear length on top of the schedules the job does not complete)
+				j := mk("crash-w4-sched1", params("W", 4, "DRAIN", 0, "ZONE", 2, "POSTN", 1), 1, false, false, 1)
+				j.ZoneOnly = true // schedules explored in the workload phase, recovery under the default schedule
+				js = append(js, j)
+			}
 		}
 		{
 			// Close with flushes pending (flusher slower than the writers): schedules and crash
